@@ -31,7 +31,7 @@ def _run_variant(args):
     v = V.for_prop(prop)[idx]
     t0 = time.time()
     try:
-        base = Project(repo)
+        base = Project(repo, normalise=False)     # variants are computed on the source as written
         overlay = v.build(base)
     except Stale as e:
         return idx, 'stale', str(e), []
